@@ -29,7 +29,16 @@ impl MeshEdges<'_> {
         if euler_lhs != euler_rhs || self.mesh().get_patches().len() != 1 {
             return Err("Mesh must be a topological disk".into());
         }
-        let i_bound = self.boundary_loops[0].as_slice();
+
+        // The direction of the layout is set by the first loop vertex, and the edge structure picks
+        // that vertex from a hash set: start at the smallest vertex id so that the result depends
+        // on the mesh only.
+        let start = (0..self.boundary_loops[0].len())
+            .min_by_key(|&k| self.boundary_loops[0][k])
+            .unwrap_or(0);
+        let mut i_bound_rotated = self.boundary_loops[0].clone();
+        i_bound_rotated.rotate_left(start);
+        let i_bound = i_bound_rotated.as_slice();
 
         // Get the inner vertices
         let i_inner = inner_vertices(self, i_bound)?;
